@@ -27,6 +27,7 @@ inductive Err where
   | invalidRecoveryClient   -- clienttypes.ErrInvalidRecoveryClient
   | routeNotFound           -- clienttypes.ErrRouteNotFound
   | clientNotActive         -- clienttypes.ErrClientNotActive
+  | storePanic              -- not an error value: the SDK store panics on an empty key (`AssertValidKey`)
 deriving DecidableEq, Repr
 
 /-- an `exported.Path`: `none` is any value that is not a `commitmenttypesv2.MerklePath`,
@@ -40,6 +41,7 @@ def verifyMembership (store : KV) (proof : Bytes) (path : Path) (value : Bytes) 
     | none => .error .invalidType
     | some kp =>
       if kp.length != 2 then .error .invalidPath
+      else if (kp.getD 1 []).isEmpty then .error .storePanic   -- ibcStore.Get(empty key) panics
       else match store.get (kp.getD 1 []) with      -- ibcStore.Get(merklePath.KeyPath[1])
         | none => .error .failedMembership           -- bz == nil
         | some bz => if bz != value then .error .failedMembership else .ok ()
@@ -51,6 +53,7 @@ def verifyNonMembership (store : KV) (proof : Bytes) (path : Path) : Except Err 
     | none => .error .invalidType
     | some kp =>
       if kp.length != 2 then .error .invalidPath
+      else if (kp.getD 1 []).isEmpty then .error .storePanic   -- ibcStore.Has(empty key) panics
       else if store.has (kp.getD 1 []) then .error .failedNonMembership   -- ibcStore.Has(KeyPath[1])
       else .ok ()
 
